@@ -60,13 +60,22 @@ theorem C06_kill_once (s : Sys) (c : Cid) (e : Env) (poison : Bool)
   simp [hs, hz, hst, hm]
 
 /-- A restart directive that reaches an actor which is already stopping (killed by its parent or anybody else
-between its failure and the supervisor's decision) is ignored: a stopping actor is never brought back. -/
+between its failure and the supervisor's decision) is ignored: a stopping actor is never brought back (the directive only
+undoes the pause that came with it, so that the mail parked behind it drains into dead letters). -/
 theorem C06_restart_ignored_while_stopping (s : Sys) (c : Cid) (e : Env) (poison : Bool)
     (hm : e.msg = .restart poison) (hs : e.sys = true) (hz : (s.ctx c).zombie = false)
     (hst : (s.ctx c).state = .killing) :
-    handle s c e = s := by
+    handle s c e = upd s c (fun x => { x with paused := false }) := by
   unfold handle
   simp [hs, hz, hst, hm]
+
+/-- A zombie cannot be restarted either; the directive only undoes the pause its supervisor put on the mailbox before
+sending it (one-for-all restarts reach zombie siblings), so the zombie goes on consuming its mail (C09). -/
+theorem C09_zombie_restart_directive_unpauses (s : Sys) (c : Cid) (e : Env) (poison : Bool)
+    (hm : e.msg = .restart poison) (hz : (s.ctx c).zombie = true) (hst : (s.ctx c).state = .killed) :
+    handle s c e = upd s c (fun x => { x with paused := false }) := by
+  unfold handle
+  simp [hz, hst, hm]
 
 /-- The stop wins over a restart in progress: after a kill has reached an actor whose restart waits for its children,
 the actor is no longer restarting, so the completion of its kill chain (`onKilled` once the last child is gone) is a
